@@ -6,7 +6,7 @@
    Proved here, for all inputs / all programs of the model's language: the constructor shortcuts
    (ctor_shortcuts_sound), the algebra of every optimiser rewrite (rewrite_sound_algebra) and its
    graph-level form (rewrite_sound), the operator numbering (opcode_table_matches_server), rate inference
-   (op_rate_is_max_input_rate), dead code elimination (dce_only_pure_unreferenced_partial: the guards;
+   (op_rate_is_max_input_rate), dead code elimination (dce_leaves_effectful_and_referenced_units: the guards;
    dce_only_pure_unreferenced: what is missing from the emitted graph), the maintained-descendants
    invariant through construction and every step of the optimiser (desc_inv_preserved), the topological
    sort (topo_sort_correct), totality (every_wellformed_prog_compiles), that effectful units are emitted
@@ -86,27 +86,27 @@ Theorem op_rate_is_max_input_rate :
      Z.max (Z.max (Z.max (rate_num (vrate s a)) (rate_num (vrate s b))) (rate_num (vrate s c))) (rate_num (vrate s d))).
 Proof. repeat split; [apply bin_rate_max | apply new_bin_unit_rate | apply seq_rate3_max | apply seq_rate4_max]. Qed.
 
-(* Dead code elimination: an effectful unit's _optimize_graph is the identity, and so is that of a
-   side-effect-free unit (other than the BinaryOpUGen rewrites) whose descendant set is not empty.
-   Full statement (open, needs desc_inv): a unit missing from the emitted graph is pure and no emitted
-   unit reads it. *)
-Theorem dce_only_pure_unreferenced_partial :
+(* Dead code elimination, the guards (for ANY state and any setting of the three flags, i.e. also for the
+   code before the repairs): an effectful unit's _optimize_graph is the identity, and so is that of a
+   side-effect-free unit (other than the BinaryOpUGen rewrites) whose descendant set is not empty.  The
+   property clause itself ("only side-effect-free units that nothing references may be dropped") is
+   dce_only_pure_unreferenced below. *)
+Theorem dce_leaves_effectful_and_referenced_units :
   (forall strict guard sg f s u U, get_unit s u = Some U -> pure U = false -> opt_unit T strict guard sg (S f) s u = Ok s) /\
   (forall strict guard sg f s u U d, get_unit s u = Some U -> pure U = true -> desc_of s U = Some d -> d <> [] ->
      ukind U <> KBin -> opt_unit T strict guard sg (S f) s u = Ok s).
 Proof. split; [exact opt_unit_impure | exact opt_unit_referenced]. Qed.
 
-(* every_wellformed_prog_compiles (full statement open; expected form: forall p, typechecks p ->
-   exists g, compile T dce_strict p = Ok g).  Proved: the programs in which a dead side-effect-free
-   unit reads the same live value twice (DESIGN.md section 6, F10: x = SinOsc.ar(); y = x * x;
-   Out.ar(0, x), and two relatives) compile with the removal mode REGENERATED from the working tree.
-   This fails to check on a tree whose _perform_dead_code_elimination uses set.remove. *)
-Theorem every_wellformed_prog_compiles_partial :
+(* The programs of defect F10 (a dead side-effect-free unit reads the same live value twice: x = SinOsc.ar();
+   y = x * x; Out.ar(0, x), and two relatives) compile with the removal mode REGENERATED from the working tree;
+   this fails to check on a tree whose _perform_dead_code_elimination uses set.remove.  (An instance of
+   every_wellformed_prog_compiles below, kept as a computed example.) *)
+Example f10_family_compiles :
   forallb (compiles dce_strict dce_guard sub_guard) [F10; F10_add; F10_lpf] = true.
 Proof. exact f10_current_tree_compiles. Qed.
 
 (* the faithful model of the code with set.remove refutes it (KeyError), with set.discard it holds *)
-Example every_wellformed_prog_compiles_refuted_with_remove :
+Example f10_refuted_with_remove :
   compile T true false false F10 = Err EKey /\ forallb (compiles false false false) [F10; F10_add; F10_lpf] = true.
 Proof. split; [exact (proj1 f10_strict_raises) | exact f10_discard_compiles]. Qed.
 
@@ -163,6 +163,21 @@ Proof.
   intros p (s1 & Hb & Hc). destruct optimiser_is_the_fixed_code as (E1 & E2 & E3). rewrite E1, E2, E3 in *.
   destruct (compile_total p s1 Hb Hc) as (g & ok & s2f & s3 & s2 & out & E & _).
   exists g. unfold compile. rewrite E. reflexivity.
+Qed.
+
+(* the hypothesis is satisfiable by a non-trivial program: the F21 program (a dead unit reading a rewritten
+   unit) is well-formed, and so is a program with controls, a shared sum, a negation and two outputs *)
+Example wellformed_examples :
+  wellformed (mkP [] [] [IU "Saw" Audio [AC 1]; IU "Saw" Audio [AC 2]; IU "Saw" Audio [AC 3];
+                         IBin "add" (AV 0 0) (AV 1 0); IBin "add" (AV 3 0) (AV 2 0); IBin "mul" (AV 3 0) (AV 4 0);
+                         IBin "mul" (AV 5 0) (AV 4 0); IOut Audio (AC 0) [AV 4 0]]) /\
+  wellformed (mkP [1%Q] [1#2] [IU "Saw" Audio [AP true 0]; IU "Saw" Audio [AP false 0]; IBin "add" (AV 0 0) (AV 1 0);
+                             IBin "add" (AV 2 0) (AV 2 0); IUn "neg" (AV 3 0); IBin "sub" (AV 0 0) (AV 4 0);
+                             IOut Audio (AC 0) [AV 5 0; AC 0]; IOut Control (AC 1) [AP true 0]]).
+Proof.
+  split.
+  - eexists. split; [vm_compute; reflexivity|]. intros s2 ok H. vm_compute in H. injection H as <- _. vm_compute. reflexivity.
+  - eexists. split; [vm_compute; reflexivity|]. intros s2 ok H. vm_compute in H. injection H as <- _. vm_compute. reflexivity.
 Qed.
 
 (* _topological_sort (also what C02 asks of the compiler): the children after the sort are a permutation
@@ -273,8 +288,7 @@ Print Assumptions ctor_shortcuts_sound.
 Print Assumptions rewrite_sound_algebra.
 Print Assumptions opcode_table_matches_server.
 Print Assumptions op_rate_is_max_input_rate.
-Print Assumptions dce_only_pure_unreferenced_partial.
-Print Assumptions every_wellformed_prog_compiles_partial.
+Print Assumptions dce_leaves_effectful_and_referenced_units.
 Print Assumptions desc_inv_preserved.
 Print Assumptions every_wellformed_prog_compiles.
 Print Assumptions topo_sort_correct.
